@@ -29,6 +29,8 @@ DISK = {"A": 1, "B": -1}
 
 
 def matcher(f, case):
+    # a run is covered by the finding only if it shows the listed history pattern AND fails exactly the way the model of the
+    # listed failure predicts (history, byte total, entries, disk); any other failure in that region is reported
     return f.get("match", {}).get("pattern") == "inflight" and case.get("known_pattern")
 
 
@@ -65,7 +67,10 @@ def replay_all(behs, ev, vd, d, tag):
         pred = [(h["c"], h["k"], h["f"], h["out"], 0 if h["out"] == "internalerr" else h["val"], h["inv"], h["res"])
                 for h in b["hist"]]
         real = [(h["c"], h["k"], h["f"], h["out"], h["val"], h["inv"], h["res"]) for h in proj["hist"]]
-        if pred != real or drv.drift:
+        same_as_model = (pred == real and not drv.drift and proj["mem"] == b["mem"] and
+                         all(proj["bytes"][f] == b["bytes"][f] for f in FILES) and all(proj["disk"][f] == b["disk"][f] for f in FILES))
+        meta[tid] = (b, drv.known_pattern and same_as_model, drv.drift)
+        if not same_as_model:
             drift += 1
             if len(ev.cov.setdefault("spec_drift_samples", [])) < 2:
                 ev.cov["spec_drift_samples"].append({"predicted": pred, "real": real, "notes": drv.drift[:3]})
